@@ -330,6 +330,15 @@ pub fn run(tier: &str, seed: u64) -> i32 {
         |c| json!({"case": c.note}),
         check_case,
     ));
+    if thorough {
+        match roundtrip_tier() {
+            Ok(st) => report.add(st),
+            Err(e) => {
+                eprintln!("machinery error: round-trip farm: {e}");
+                return 2;
+            }
+        }
+    }
     report.assumptions = vec![
         "the standalone struct is built exactly as downstream code does (create_composite_ir_kind with empty TypeParameters, CompositeIR::new, upcast_composite, to_token_stream) and interpreted in the scope where the generated root module is declared".into(),
         "encoding equality with the variant's payload follows from shape bisimilarity of every field; the compile-farm tier checks it with real encodings".into(),
@@ -341,4 +350,163 @@ pub fn replay(case: &Case) -> Vec<Violation> {
     let mut ctx = Ctx::default();
     check_case(case, &mut ctx);
     ctx.violations
+}
+
+
+/// Thorough tier: the standalone structs are compiled next to the generated module with the real
+/// codec derives; every enumerated payload of a variant must decode with the standalone struct,
+/// consume all input and re-encode identically, and `index ++ payload` must do the same with the enum.
+pub fn roundtrip_tier() -> Result<Stats, String> {
+    use crate::farm::*;
+    use crate::refenc::Enumerator;
+    use rayon::prelude::*;
+    let profile = compile_profile();
+    let mut progs: Vec<(String, crate::spm::Program)> = vec![];
+    let a = DArms { max_depth: 2 };
+    let (all, _, _) = enumerate(&a, 1, 1_000_000);
+    for (_, s) in &all {
+        for (prog, pos) in arms_programs(&s.expr) {
+            if pos.contains("Variant") || pos.contains("Struct") {
+                progs.push((format!("D-arms {pos}"), prog));
+            }
+        }
+    }
+    let g = quick_graph(2);
+    let (all, _, _) = enumerate(&g, 2, 1_000_000);
+    for (_, s) in &all {
+        if s.nodes.iter().any(|k| *k == NodeKind::GenericStruct) && s.cyclic_from(0) {
+            continue; // recursive generics do not compile with the codec derive (known finding of C02)
+        }
+        if s.nodes.iter().any(|k| *k == NodeKind::Enum) {
+            progs.push(("D-graph".into(), s.program()));
+        }
+    }
+    let built: Vec<Option<RtCase>> = progs
+        .par_iter()
+        .map(|(label, prog)| {
+            let reg = crate::spm::elaborate(prog).registry;
+            let settings = profile.build();
+            let tokens = match generate(&reg, &settings) {
+                GenOutcome::Ok { tokens } => tokens,
+                _ => return None,
+            };
+            if tokens.contains("primitive :: char") {
+                return None;
+            }
+            let em = parse_emitted(&tokens).ok()?;
+            let en = Enumerator { reg: &reg, cap: 8 };
+            let mut extra = String::new();
+            let mut tests = vec![];
+            let mut k = 0;
+            for t in &reg.types {
+                if t.ty.path.segments.len() < 2 {
+                    continue;
+                }
+                let mut full = vec![profile.root.clone()];
+                full.extend(t.ty.path.segments.iter().cloned());
+                let Some(item) = em.items.get(&full) else { continue };
+                if !item.generics.is_empty() {
+                    continue;
+                }
+                let lists: Vec<(Option<u8>, &Vec<Field<PortableForm>>)> = match &t.ty.type_def {
+                    TypeDef::Composite(c) => vec![(None, &c.fields)],
+                    TypeDef::Variant(v) => v.variants.iter().map(|x| (Some(x.index), &x.fields)).collect(),
+                    _ => continue,
+                };
+                for (index, fields) in lists {
+                    if fields.is_empty() {
+                        continue;
+                    }
+                    let ids: Vec<u32> = fields.iter().map(|f| f.ty.id).collect();
+                    let Some(payloads) = en.product(&ids, 3) else { continue };
+                    if payloads.is_empty() {
+                        continue;
+                    }
+                    let name = format!("Standalone{k}");
+                    k += 1;
+                    let Ok(Ok(code)) = standalone(&reg, &settings, &name, fields) else { continue };
+                    extra.push_str(&code);
+                    extra.push(' ');
+                    tests.push((t.id, name.clone(), payloads.clone()));
+                    if let Some(idx) = index {
+                        if let Ok(Ok(path)) = resolve_path(&reg, &settings, t.id) {
+                            let with_idx: Vec<Vec<u8>> = payloads
+                                .iter()
+                                .map(|p| {
+                                    let mut v = vec![idx];
+                                    v.extend_from_slice(p);
+                                    v
+                                })
+                                .collect();
+                            tests.push((t.id, path, with_idx));
+                        }
+                    }
+                }
+            }
+            if tests.is_empty() {
+                return None;
+            }
+            let case = Case::new(RegSrc::Prog(prog.clone()), profile.clone(), "standalone round trip");
+            Some(RtCase {
+                label: label.clone(),
+                replay: case.replay("C18"),
+                tokens: format!("{tokens} {extra}"),
+                tests,
+            })
+        })
+        .collect();
+    let mut seen = std::collections::HashSet::new();
+    let mut cases = vec![];
+    for c in built.into_iter().flatten() {
+        if seen.insert(hash128(&c.tokens)) {
+            cases.push(c);
+        }
+    }
+    let res = roundtrip(&cases, 16)?;
+    let mut st = Stats {
+        driver: format!(
+            "round-trip farm: standalone structs of D-arms(depth<=1) and D-graph(edges<=2, with enums) compiled next to the generated module; every enumerated variant payload decoded with the standalone struct and, prefixed with the index, with the enum ({} crates)",
+            res.crates
+        ),
+        states: cases.len() as u64,
+        transitions: res.decodes,
+        max_depth: 1,
+        bound_completed: 1,
+        exhaustive: true,
+        executed: res.decodes,
+        distinct_outcomes: 1 + (res.failures.len() + res.compile_errors.len()).min(1) as u64,
+        wall_s: res.wall_s,
+        ..Default::default()
+    };
+    st.samples = cases.iter().take(2).map(|c| json!({"label": c.label, "module_and_structs": truncate(&c.tokens, 500)})).collect();
+    let mut by: std::collections::BTreeMap<String, (u64, Violation)> = Default::default();
+    for f in &res.failures {
+        let c = &cases[f.case];
+        let class = f.message.split(' ').nth(1).unwrap_or("failure").to_string();
+        let v = Violation {
+            sig: format!("C18/rustc-roundtrip/{class}"),
+            detail: format!("{} case, registry id {}: {} - code: {}", c.label, f.id, f.message, truncate(&c.tokens, 400)),
+            replay: c.replay.clone(),
+            size: c.tokens.len(),
+        };
+        by.entry(v.sig.clone()).and_modify(|e| e.0 += 1).or_insert((1, v));
+    }
+    for e in &res.compile_errors {
+        let c = &cases[e.case];
+        let v = Violation {
+            sig: format!("C18/rustc/{}", e.code),
+            detail: format!("{} case: the standalone structs do not compile next to the generated module: {} - code: {}", c.label, e.message, truncate(&c.tokens, 400)),
+            replay: c.replay.clone(),
+            size: c.tokens.len(),
+        };
+        by.entry(v.sig.clone()).and_modify(|e| e.0 += 1).or_insert((1, v));
+    }
+    st.violations = by
+        .into_values()
+        .map(|(n, mut v)| {
+            v.detail = format!("{} ({n} fail this way)", v.detail);
+            v
+        })
+        .collect();
+    Ok(st)
 }
